@@ -59,6 +59,9 @@ using namespace Qentem;
 #ifndef HLIST
 #define HLIST 0
 #endif
+#ifndef OBS
+#define OBS 15      // which observer groups run: 1 = j-th visited entry, 2 = every model entry found, 4 = probe key, 8 = any index
+#endif
 #define MAXL (K + K2 + 2)   // model capacity (never reached: asserted)
 #define MAXS 16             // scan buffer (>= any capacity reachable here: asserted)
 
@@ -175,7 +178,7 @@ static void observe(const T &t, const Model &m, int sorted) {
 
     // (a) the j-th visited live entry
     unsigned j = vf_u32();
-    if (j < m.n && j < no) {
+    if ((OBS & 1) && j < m.n && j < no) {
         const unsigned idx = oi[j];
         const Key2 *k = t.GetKey(idx);
         const typename T::HItem *it = t.GetItem(idx);
@@ -207,7 +210,7 @@ static void observe(const T &t, const Model &m, int sorted) {
     }
     // (a') every model entry is found (with (13) and distinct model keys: the live entries ARE the model's)
     unsigned q = vf_u32();
-    if (q < m.n) {
+    if ((OBS & 2) && q < m.n) {
         Key2     qk(m.k[q].d, m.k[q].n);
         unsigned ki = 0xFFFFFFFFu;
         bool     f = t.GetKeyIndex(ki, qk.First(), qk.Length());
@@ -216,12 +219,12 @@ static void observe(const T &t, const Model &m, int sorted) {
         vf_assert(k != nullptr && k_is(k, m.k[q]), 31);
         if (sorted == 0 && q < no) vf_assert(ki == oi[q], 32);
     }
-    // (b) an arbitrary probe key
+    // (b) an arbitrary probe key (the Key_T overloads forward to the (pointer, length) ones)
+    if (OBS & 4) {
     MKey p = sym_key();
     Key2 pk(p.d, p.n);
     const int mi = m_find(m, p);
     vf_assert(t.Has(pk) == (mi >= 0), 40);
-    vf_assert(t.Has(pk.First(), pk.Length()) == (mi >= 0), 41);
     const typename T::HItem *pit = t.GetItem(pk);
     vf_assert((pit != nullptr) == (mi >= 0), 42);
     if (pit != nullptr) vf_assert(k_is(&(pit->Key), p), 43);
@@ -230,14 +233,14 @@ static void observe(const T &t, const Model &m, int sorted) {
     vf_assert((gv != nullptr) == (mi >= 0), 44);
     if (gv != nullptr && mi >= 0) vf_assert(*gv == m.v[mi], 45);
     if (pit != nullptr) vf_assert(gv == &(pit->Value), 46);
-    const int *gv2 = t.GetValue(pk.First(), pk.Length());
-    vf_assert(gv2 == gv, 47);
 #endif
     unsigned pki = 0xFFFFFFFFu;
     bool     pf = t.GetKeyIndex(pki, pk);
     vf_assert(pf == (mi >= 0), 48);
     if (pf && pit != nullptr) vf_assert(pki < sz && pit == t.First() + pki, 49);
+    }
     // (c) an arbitrary storage index, in range or not
+    if (OBS & 8) {
     unsigned i = vf_u32();
     const Key2 *ik = t.GetKey(i);
     const typename T::HItem *ii = t.GetItem(i);
@@ -247,6 +250,7 @@ static void observe(const T &t, const Model &m, int sorted) {
     const int *iv = t.GetValue(i);
     vf_assert((iv != nullptr) == (ik != nullptr), 52);
 #endif
+    }
 }
 
 extern "C" void h_op() {
